@@ -203,7 +203,7 @@ theorem okOr_ok {α} (r : Except Err Unit) (v : α) (h : r = .ok ()) : okOr r v 
   subst h; rfl
 
 /-- hypothesis of the Build theorems: constructors fill every field of their result objects
-(a nil field is the known finding D15) -/
+(with a nil field Build of a singleton registration fails: repaired defect D15) -/
 def NoNilOutputs (beh : Beh) : Prop := ∀ c n, beh.nilField c n = none
 
 theorem createInstance_singleton (beh : Beh) (hnil : NoNilOutputs beh) (f : Nat) (st : State) (s : Nat) (d : Desc) (wf : WF st.descs)
@@ -320,7 +320,7 @@ theorem createInstance_singleton (beh : Beh) (hnil : NoNilOutputs beh) (f : Nat)
             · rw [rw'.voidAlone d hd hvoid] at h; simp at h
         next hmulti =>
           -- multi: one value per sibling
-          simp only [hnil d.ctor]
+          simp only [hnil d.ctor, markAbsent_none]
           generalize hsibs' : (if (d.sibs.filterMap (findDesc (bumpInv ra.1 d.ctor).descs)).isEmpty then [d]
             else d.sibs.filterMap (findDesc (bumpInv ra.1 d.ctor).descs)) = sibs'
           have hs'life : ∀ sd ∈ sibs', sd.life = .singleton ∧
@@ -477,6 +477,8 @@ theorem createSingletons_inv (beh : Beh) (hnil : NoNilOutputs beh) (descs : List
       next hl =>
         have hl' : d.life = .singleton := by simpa using hl
         split
+        · exact inv
+        split
         · exact ih st inv
         next hn =>
           have hnone : (lookup st.singletons d.ident).isSome = false := by simpa using hn
@@ -539,6 +541,9 @@ theorem createSingletons_ok_stored (beh : Beh) (hnil : NoNilOutputs beh) (descs 
         · exact hs id' h d hd' hl
       · simp only [hl0, Bool.false_eq_true, ↓reduceIte] at hok ⊢
         have hl0' : d0.life = .singleton := by simpa using hl0
+        by_cases habs : (lookup st.singletons d0.ident == some Val.absent) = true
+        · simp only [habs, ↓reduceIte] at hok; cases hok
+        simp only [habs, Bool.false_eq_true, ↓reduceIte] at hok ⊢
         by_cases hst : (lookup st.singletons d0.ident).isSome = true
         · simp only [hst, ↓reduceIte] at hok ⊢
           obtain ⟨g, hs⟩ := ih st inv hok
